@@ -41,7 +41,7 @@ impl Check for C04 {
         "C04"
     }
     fn ncases(&self, tier: Tier) -> u64 {
-        tier.sz(10000, 120000)
+        tier.sz(40000, 600000)
     }
     fn rule(&self) -> &'static str {
         "one conflict-free grammar with only productive rules per case (random LR(1), LR(1)-not-LALR templates, lookahead squares, gc seeds: merged-state-heavy on purpose); inputs: 1-3-edit mutants of sampled sentences, every kind of proper prefix (end-of-input errors), random strings, the empty input; each rejected input parsed with recovery off (exactly one error, no value, at the first non-viable lexeme per an Earley viable-prefix oracle; end-of-input errors are zero-length at the end of the last lexeme) and with CPCT+ on (first error at the same lexeme). Non-trivial = error index > 0 or at end of a non-empty input; distinct by (grammar, input)."
@@ -50,12 +50,14 @@ impl Check for C04 {
         vec!["viable prefixes are decided by the harness's Earley recogniser on the abstract grammar", "preconditions (conflict-free table, all rules productive, no derivation cycle) are evaluated by the harness; other grammars are skipped and counted"]
     }
     fn floor(&self, tier: Tier) -> u64 {
-        tier.sz(20000, 200000)
+        tier.sz(40000, 400000)
     }
     fn required_counters(&self, _t: Tier) -> Vec<&'static str> {
         vec!["rejected_inputs", "errors_at_first_lexeme", "errors_in_middle", "errors_at_eof", "errors_after_reductions_on_bad_lookahead", "recovery_on_checked"]
     }
     fn run_case(&self, seed: u64, idx: u64, tier: Tier) -> CaseOut {
+        // thorough tier: every third case draws its random grammars from the medium-sized family
+        set_size_boost(tier == Tier::Thorough && idx % 3 == 1);
         let mut out = CaseOut::new();
         let mut rng = Rng::derive(seed, "C04", idx, 0);
         let ag = match rng.weighted(&[50, 20, 15, 15]) {
